@@ -712,6 +712,11 @@ func (rs *runState) finish() int {
 	}
 	rs.extra["distinct_violation_signatures"] = len(sigs)
 	rs.writePart()
+	// vacuity guard: a check that may drop programs (C07's casualties) must not drop most of them - that is what a harness
+	// problem looks like from the inside (every batch failing for one reason of mine), never a passed check
+	if rs.programs > 0 && rs.dropped*4 > rs.programs {
+		rs.infra = append(rs.infra, fmt.Sprintf("%d of %d generated programs were dropped as compile/build casualties: the run decides nothing", rs.dropped, rs.programs))
+	}
 	// infrastructure problems are printed even when violations exist: a broken shape of mine silently removes its whole
 	// batch from the run otherwise
 	for i, s := range rs.infra {
